@@ -702,7 +702,7 @@ def check_tools(ctx, stats, nruns):
     serial = build_weak_tools(ctx, serial=True) if not ctx.quick() else None
     base = ctx.scratch / "e2e"
     base.mkdir(exist_ok=True)
-    comps = ["gzip", "xz", "lz4", "zstd"]
+    comps = ["gzip", "xz", "lzma", "lz4", "zstd"]
     for run_i in range(nruns):
         rng = ctx.rng
         B = rng.choice([4096, 4096, 8192, 131072]) if not ctx.quick() else rng.choice([4096, 8192])
